@@ -2,6 +2,8 @@
 from ..engine.prov import const_value, strip_casts, walk, walk_deep, show
 from ..engine.dtable import canon
 from ..engine.fold import fold, fold_ip
+from ..engine.cfg import span_str
+from ..engine import panics
 from ..engine.variants import reachable_returns
 from .c12 import child_region, mentions
 
@@ -321,6 +323,19 @@ def run_one(ck, prog):
             # cached status short-circuit: a return not dominated by the wait exists (status already known)
             cached = [rb for rb in c.cfg.return_blocks() if rb in c.cfg.reachable_from(0, avoid={bb})]
             ck.ob("C13.7", f"{nm}|cached-status", bool(cached), fn=nm, detail="a known exit status must be returned without waiting again (the pid may have been recycled)")
+            # the status is remembered only for a child that was actually reaped: after a WNOHANG wait, a store into `status` needs
+            # pid != 0 on its path (pid == 0 means "still running"; caching that status makes a later wait() return at once)
+            if fl == 1:
+                for b in fn["blocks"]:
+                    if b["id"] not in c.cfg.live_blocks() or b.get("cleanup") or b["id"] not in c.cfg.reachable_from(c.cfg.term(bb).get("t")):
+                        continue
+                    for i, st in enumerate(b["stmts"]):
+                        if st["k"] == "assign" and st["dst"].get("p") and any(pe["k"] == "field" and pe.get("n") == "status" and (pe.get("adt") or "").endswith("process::Process") for pe in st["dst"]["p"]):
+                            facts = panics.dominating_facts(c, b["id"])
+                            reaped = any(f[0] == "cmp" and ((f[1] == "Ne" and 0 in (fold(f[2]), fold(f[3]))) or (f[1] in ("Gt",) and fold(f[3]) == 0)) and
+                                         any(mentions(x, c.prov, lambda z: z[0] == "field" and z[2] == "pid" and mentions(z[1], c.prov, lambda w: w[0] == "call" and w[3] == bb)) for x in (f[2], f[3])) for f in facts)
+                            ck.ob("C13.7", f"{nm}|status-cached-only-when-reaped", reaped, fn=nm, site=span_str(st.get("sp")),
+                                  detail="try_wait stores the status of a WNOHANG wait without `pid != 0` on the path: for a child that is still running the kernel reports pid 0 and status 0, and caching that makes every later wait()/try_wait() claim the child exited with 0")
 
 
 def check_builder(ck, prog):
